@@ -77,6 +77,7 @@ def gen_trace(seed, world, tier):
     if scale:
         A = {"gen": "scale", "of": A, "c": 10.0 ** scale}
     routine = R.choice(["pi", "pi", "pi", "pinh"])
+    sparse_arg = False
     budget = R.choice([BIG, BIG, BIG, 1, 2, 7, 0])
     if routine == "pi":
         fn = "utils.power_iteration"
@@ -85,6 +86,12 @@ def gen_trace(seed, world, tier):
             kw["tol"] = R.choice([1e-8, 1e-12, 0.0])
         if R.random() < 0.12:
             kw["verbose"] = True
+        if R.random() < 0.12:
+            # the matrix is handed over as a SparseQuaternionMatrix (dense @ sparse products inside)
+            sparse_arg = True
+            A = dict(A, storage="sparse")
+            if R.random() < 0.5:
+                A["explicit_zeros"] = True
     else:
         fn = "utils.power_iteration_nonhermitian"
         kw = {"max_iterations": R.choice([budget, 3000]), "seed": R.randrange(20),
@@ -94,7 +101,7 @@ def gen_trace(seed, world, tier):
         if R.random() < 0.25:
             kw["return_vector"] = False
     tags = {"routine": routine, "family": fam, "n": n, "scale": scale, "lam": lam, "budget": kw["max_iterations"],
-            "shape": shape if fam.startswith("herm") else "dense", "herm_exact": fam.startswith("herm") and not noisy}
+            "shape": shape if fam.startswith("herm") else "dense", "sparse": sparse_arg, "herm_exact": fam.startswith("herm") and not noisy}
     steps = [{"k": "rng", "op": "seed", "v": R.randrange(10 ** 6), "client": 0}]
     for _ in range(R.randint(0, 2)):
         if R.random() < 0.7:
